@@ -209,6 +209,15 @@ def programs(tier: str) -> list[Program]:
                 ps.append(Program(f"runs(n={n},limit={limit},staggered={staggered})", {"n": n, "limit": limit},
                                   (lambda ex, n=n, limit=limit, st=staggered: execute(ex, n, limit, False, False, st)),
                                   min_concurrency=min(n, limit)))
+    # more runs than twice the limit, started one by one: a run can finish while a sibling still holds a slot and nobody queues
+    if q:  # (the thorough tier has this one in the loop above)
+        ps.append(Program("runs(n=4,limit=2,staggered=True)", {"n": 4, "limit": 2},
+                          (lambda ex: execute(ex, 4, 2, False, False, True)), max_dev=4, min_concurrency=2))
+    if not q:
+        ps.append(Program("runs(n=5,limit=2,staggered=True)", {"n": 5, "limit": 2},
+                          (lambda ex: execute(ex, 5, 2, False, False, True)), max_dev=6, min_concurrency=2))
+        ps.append(Program("runs(n=6,limit=3,staggered=True)", {"n": 6, "limit": 3},
+                          (lambda ex: execute(ex, 6, 3, False, False, True)), max_dev=5, min_concurrency=3))
     ps.append(Program("runs(n=3,limit=None)", {}, lambda ex: execute(ex, 3, None, False, False, False), min_concurrency=3))
     for limit in (1, 2):
         ps.append(Program(f"two_instances(n=2,limit={limit})", {}, (lambda ex, limit=limit: execute(ex, 2, limit, True, False, False)),
